@@ -67,6 +67,7 @@ type variant struct {
 	mute     int  // number of followers that never acknowledge (must leave a quorum)
 	perW     int  // writes per writer
 	cancel   bool // writer 0's context is cancelled by another thread while its write is in flight
+	sameKey  bool // all writers write the same key (C02: the leader's state must follow the log order)
 }
 
 type wres struct {
@@ -135,8 +136,12 @@ func body(v variant) func(s *vsched.Sched) {
 					if v.cancel && w == 0 {
 						ctx = cctx
 					}
+					key := fmt.Sprintf("k%d", i)
+					if v.sameKey {
+						key = "k"
+					}
 					resp, err := lc.WriteBlock(ctx, &proto.WriteRequest{Shard: oxh.I64(1),
-						Puts: []*proto.PutRequest{{Key: fmt.Sprintf("k%d", i), Value: []byte(fmt.Sprintf("v%d", i))}}})
+						Puts: []*proto.PutRequest{{Key: key, Value: []byte(fmt.Sprintf("v%d", i))}}})
 					results[i] = wres{done: true, err: err, resp: resp}
 				}
 			})
@@ -177,6 +182,9 @@ func body(v variant) func(s *vsched.Sched) {
 			db := server.VerifLeaderDB(lc)
 			seenVer := map[int64]bool{}
 			for i, r := range results {
+				if v.sameKey {
+					break
+				}
 				key := fmt.Sprintf("k%d", i)
 				g, err := db.Get(&proto.GetRequest{Key: key, IncludeValue: true})
 				if err != nil || g.Status != proto.Status_OK {
@@ -216,6 +224,24 @@ func body(v variant) func(s *vsched.Sched) {
 			dbCommit, _ := db.ReadCommitOffset()
 			if commit == appended2 && dbCommit != commit {
 				fail(s, "committed-entry-not-applied", fmt.Sprintf("commit offset is %d but the leader's database has only applied up to %d", commit, dbCommit))
+			}
+		}
+		// the leader's state is what the log says: a read served now returns the write with the
+		// highest offset, and the whole database equals the fold of the committed log
+		if commit == appended && commit >= 0 {
+			var entries []*proto.LogEntry
+			if rd, err := w.NewReader(-1); err == nil {
+				for rd.HasNext() {
+					e, err := rd.ReadNext()
+					if err != nil {
+						break
+					}
+					entries = append(entries, e)
+				}
+				_ = rd.Close()
+			}
+			if d := oxc.FoldDiffers("ns", 1, server.VerifLeaderDB(lc), entries, commit); d != "" {
+				fail(s, "leader-state-not-fold-of-log", fmt.Sprintf("leader database after %d acknowledged writes differs from applying log entries 0..%d in order:\n %s", okCount, commit, d))
 			}
 		}
 		// effects applied in offset order, exactly once
@@ -337,22 +363,37 @@ func scenarios(tier string) []sched.Scenario {
 		}{v, dev})
 	}
 	if tier == "thorough" {
-		add(variant{"rf3-2writers-sync", 2, 3, true, false, 0, 1, false}, 3)
-		add(variant{"rf3-2writers-nosync", 2, 3, false, false, 0, 1, false}, 3)
-		add(variant{"rf3-1live-follower-sync", 2, 3, true, false, 1, 1, false}, 3)
-		add(variant{"rf3-dupacks-sync", 2, 3, true, true, 0, 1, false}, 2)
-		add(variant{"rf5-2writers-sync", 2, 5, true, false, 0, 1, false}, 2)
-		add(variant{"rf5-2mute-sync", 2, 5, true, false, 2, 1, false}, 2)
-		add(variant{"rf3-3writers-sync", 3, 3, true, false, 0, 1, false}, 2)
-		add(variant{"rf3-2x2writes-sync", 2, 3, true, false, 0, 2, false}, 2)
+		add(variant{"rf3-2writers-sync", 2, 3, true, false, 0, 1, false, false}, 3)
+		add(variant{"rf3-2writers-nosync", 2, 3, false, false, 0, 1, false, false}, 3)
+		add(variant{"rf3-1live-follower-sync", 2, 3, true, false, 1, 1, false, false}, 3)
+		add(variant{"rf3-dupacks-sync", 2, 3, true, true, 0, 1, false, false}, 2)
+		add(variant{"rf5-2writers-sync", 2, 5, true, false, 0, 1, false, false}, 2)
+		add(variant{"rf5-2mute-sync", 2, 5, true, false, 2, 1, false, false}, 2)
+		add(variant{"rf3-3writers-sync", 3, 3, true, false, 0, 1, false, false}, 2)
+		add(variant{"rf3-2x2writes-sync", 2, 3, true, false, 0, 2, false, false}, 2)
 		add(variant{name: "rf3-2writers-one-cancelled", writers: 2, rf: 3, syncData: true, perW: 1, cancel: true}, 3)
+		add(variant{name: "rf3-2writers-same-key", writers: 2, rf: 3, syncData: true, perW: 1, sameKey: true}, 3)
+		add(variant{name: "rf3-3writers-same-key", writers: 3, rf: 3, syncData: true, perW: 1, sameKey: true}, 2)
 	} else {
-		add(variant{"rf3-2writers-sync", 2, 3, true, false, 0, 1, false}, 2)
-		add(variant{"rf3-2writers-nosync", 2, 3, false, false, 0, 1, false}, 2)
-		add(variant{"rf3-1live-follower-sync", 2, 3, true, false, 1, 1, false}, 2)
-		add(variant{"rf5-2mute-sync", 2, 5, true, false, 2, 1, false}, 1)
-		add(variant{"rf3-3writers-sync", 3, 3, true, false, 0, 1, false}, 1)
+		add(variant{"rf3-2writers-sync", 2, 3, true, false, 0, 1, false, false}, 2)
+		add(variant{"rf3-2writers-nosync", 2, 3, false, false, 0, 1, false, false}, 2)
+		add(variant{"rf3-1live-follower-sync", 2, 3, true, false, 1, 1, false, false}, 2)
+		add(variant{"rf5-2mute-sync", 2, 5, true, false, 2, 1, false, false}, 1)
+		add(variant{"rf3-3writers-sync", 3, 3, true, false, 0, 1, false, false}, 1)
 		add(variant{name: "rf3-2writers-one-cancelled", writers: 2, rf: 3, syncData: true, perW: 1, cancel: true}, 2)
+		add(variant{name: "rf3-2writers-same-key", writers: 2, rf: 3, syncData: true, perW: 1, sameKey: true}, 2)
+	}
+	if onlySameKey {
+		var f []struct {
+			v   variant
+			dev int
+		}
+		for _, x := range vs {
+			if x.v.sameKey {
+				f = append(f, x)
+			}
+		}
+		vs = f
 	}
 	var out []sched.Scenario
 	for _, x := range vs {
@@ -381,6 +422,7 @@ func Main(property string, stage2 bool, keep map[string]bool, rule string) int {
 	oxh.Quiet()
 	keepKeys = keep
 	withFollower = property == "C07"
+	onlySameKey = property == "C02"
 	if rule == "" {
 		rule = "every schedule of the harness threads (writers, WAL sync thread, follower cursors, ack receivers, scripted followers) with at most max_dev non-default scheduling choices, each run once on the real leader controller; an execution is non-trivial when it deviates from the default schedule at least once"
 	}
@@ -401,6 +443,9 @@ var keepKeys map[string]bool
 
 // withFollower adds the follower apply-loop scenarios (they belong to C07, not to C08)
 var withFollower bool
+
+// onlySameKey restricts the suite to the colliding-writers variants (schedule stage of C02)
+var onlySameKey bool
 
 // fail reports a failure unless the property being decided does not include that key.
 func fail(s *vsched.Sched, key, msg string) {
